@@ -9,7 +9,7 @@ import importlib, os, sys, traceback
 
 HERE = os.path.dirname(os.path.abspath(__file__))
 sys.path.insert(0, HERE)
-from vlib.core import Ctx
+from vlib.core import Ctx, ModelBuildError
 
 
 def main():
@@ -26,6 +26,9 @@ def main():
         ctx = Ctx(pid, tier, replay)
         try:
             return mod.run(ctx)
+        except ModelBuildError:
+            # already recorded as a violation (the model no longer builds against the regenerated Gen files)
+            return ctx.finish(level="proof", rule="model driver did not build; no correspondence run")
         except Exception:
             traceback.print_exc()
             print("[%s] machinery failure (attempt %d)" % (pid, attempt), flush=True)
